@@ -224,7 +224,7 @@ def rounds_paths(prog, an, f, block):
     am = an.summaries[f.key].fa.am
     E = _LF(f)
     out = []
-    for path in enum_paths(f):
+    for path in enum_paths(f, limit=4000, collapse_loops=True):
         lo, hi = block, 3 * block
         tweak = None
         rounds = None
@@ -363,8 +363,14 @@ def run_config(ctx, rep, cfg):
     for f in sorted(prog.defined(), key=lambda x: x.key):
         am = an.summaries[f.key].fa.am
         sel = False
+        def const_like(op, depth=0):
+            if op[0] == "c":
+                return True
+            if op[0] == "i" and depth < 4 and f.insts[op[1]]["op"] == "phi":
+                return all(const_like(x, depth + 1) for x in f.insts[op[1]]["ops"])
+            return False
         for i in f.all_insts():
-            if i["op"] == "store" and i["ops"][0][0] == "c":
+            if i["op"] == "store" and const_like(i["ops"][0]):
                 a = am.of(i["ops"][1])
                 if a is not None and a.root == ("arg", 0) and a.segs[-1].ty and a.segs[-1].off is not None and \
                         prog.describe(a.segs[-1].ty, a.segs[-1].off)[-1:] == ["rounds"]:
